@@ -610,6 +610,9 @@ func GoNamed(name string, required bool, f func()) {
 	sc.yield(&op{kind: opYield, desc: "go"})
 }
 
+// InTimer reports whether the caller runs inside a timer callback (scheduler context, no thread).
+func InTimer() bool { return s != nil && s.inFire }
+
 // GoFromScheduler starts a thread from a timer callback (time.AfterFunc).
 func GoFromScheduler(name string, f func()) {
 	sc := s
